@@ -312,6 +312,48 @@ func c01Layout(c *Ctx, dec, enc *ssa.Function) {
 			check(sl.High, w[1], "high")
 		}
 	}
+	// every variable part written is the one whose length the header announces
+	lenSrc := map[string]bool{}
+	forEachInstr(enc, false, func(_ *ssa.Function, in ssa.Instruction) {
+		st, ok := in.(*ssa.Store)
+		if !ok {
+			return
+		}
+		_, f, _, ok := fieldAddrInfo(st.Addr)
+		if !ok || (f != "ClassLen" && f != "HeaderLen" && f != "ContentLen") {
+			return
+		}
+		src := map[string]bool{}
+		partSources(st.Val, src, map[ssa.Value]bool{}, 0)
+		for k := range src {
+			lenSrc[k] = true
+		}
+	})
+	forEachInstr(enc, false, func(_ *ssa.Function, in ssa.Instruction) {
+		ci, ok := in.(ssa.CallInstruction)
+		if !ok {
+			return
+		}
+		cc := ci.Common()
+		var payload ssa.Value
+		switch {
+		case cc.IsInvoke() && (cc.Method.Name() == "WriteString" || cc.Method.Name() == "Write") && stripIface(cc.Value) == ssa.Value(buf):
+			payload = cc.Args[0]
+		case strings.HasSuffix(calleeName(cc), "header.EncodeHeader") || isGlobalCall(cc, "EncodeHeader"):
+			payload = cc.Args[1]
+		default:
+			return
+		}
+		src := map[string]bool{}
+		partSources(payload, src, map[ssa.Value]bool{}, 0)
+		for k := range src {
+			c.Check("C01.R1", fmt.Sprintf("%s:part-%s-length-announced", ek, k), ci.Pos(), lenSrc[k], "the bytes written for "+k+" are the ones a length field was computed from",
+				"the encoder writes "+k+" into the frame but no length field (ClassLen/HeaderLen/ContentLen) is computed from it: the announced lengths and the bytes written can disagree")
+		}
+		if len(src) == 0 {
+			c.Fail("C01.R1", fmt.Sprintf("%s:part-unknown-source@%s", ek, c.pos(ci.Pos())), ci.Pos(), "a variable part is written from a source the analysis cannot name")
+		}
+	})
 	// encoder write order: Class, header, content after the fixed part
 	var order []ssa.Instruction
 	names := []string{}
@@ -846,5 +888,48 @@ func c01Relay(c *Ctx) {
 		bad := existsPathFrom(eq.Block().Succs[0], func(in ssa.Instruction) bool { k := closeKind(in); return k != "" && k != "FlushWrite" || isReturn(in) },
 			func(in ssa.Instruction) bool { return closeKind(in) == "FlushWrite" })
 		c.Check("C01.R5", fk+":remote-close-flushes", eq.Pos(), bad == nil, "RemoteClose closes the other side with FlushWrite", "on RemoteClose the other side is not closed with FlushWrite: bytes received just before the close are dropped")
+	}
+}
+
+// partSources: names of the frame fields a value (or a length) is computed from.
+func partSources(v ssa.Value, out map[string]bool, seen map[ssa.Value]bool, depth int) {
+	if seen[v] || depth > 10 {
+		return
+	}
+	seen[v] = true
+	if _, f, _, ok := loadedField(v); ok {
+		out[f] = true
+		return
+	}
+	switch x := v.(type) {
+	case *ssa.FieldAddr:
+		if _, f, _, ok := fieldAddrInfo(x); ok {
+			out[f] = true
+		}
+	case *ssa.Convert:
+		partSources(x.X, out, seen, depth+1)
+	case *ssa.ChangeType:
+		partSources(x.X, out, seen, depth+1)
+	case *ssa.MakeInterface:
+		partSources(x.X, out, seen, depth+1)
+	case *ssa.Phi:
+		for _, e := range x.Edges {
+			partSources(e, out, seen, depth+1)
+		}
+	case *ssa.Call:
+		for _, a := range x.Common().Args {
+			partSources(a, out, seen, depth+1)
+		}
+		if x.Common().IsInvoke() {
+			partSources(x.Common().Value, out, seen, depth+1)
+		}
+	case *ssa.UnOp:
+		if al, ok := x.X.(*ssa.Alloc); ok {
+			for _, r := range refs(al) {
+				if st, ok := r.(*ssa.Store); ok && st.Addr == ssa.Value(al) {
+					partSources(st.Val, out, seen, depth+1)
+				}
+			}
+		}
 	}
 }
